@@ -245,6 +245,49 @@ Arguments obj A : clear implicits.
 Arguments store A : clear implicits.
 
 (* ------------------------------------------------------------------------------------------------ *)
+(* Histories of chunk-level operations on a name-addressed store (NPY files, S3 objects)               *)
+
+Section Hist.
+Context {A : Type}.
+
+Inductive hop := HPut (arr : str) (sl : slices) (dt : Z) (cshape : list Z) (data : list A) | HMark (arr : str).
+
+(* put_chunk_noraise / mark_complete *)
+Definition apply_hop (st : store A) (op : hop) : store A :=
+  match op with
+  | HPut arr sl dt cshape data =>
+      match put_chunk st arr sl dt false cshape data with Ok st' => st' | Err _ => st end
+  | HMark arr => mark_complete st arr
+  end.
+Definition run_hist (st : store A) (ops : list hop) : store A := fold_left apply_hop ops st.
+
+(* SPEC: the last put_chunk in the history that was accepted (chunk shape = slice shape) and addressed the chunk name
+   of (arr, starts) *)
+Definition last_put_step (arr : str) (starts : list Z) (acc : option (Z * list Z * list A)) (op : hop)
+  : option (Z * list Z * list A) :=
+  match op with
+  | HPut a s dt cshape data =>
+      if zs_eq_dec cshape (slice_shape s)
+      then (if str_eq_dec a arr then (if zs_eq_dec (map fst s) starts then Some (dt, cshape, data) else acc) else acc)
+      else acc
+  | HMark _ => acc
+  end.
+Definition last_put (arr : str) (starts : list Z) (ops : list hop) : option (Z * list Z * list A) :=
+  fold_left (last_put_step arr starts) ops None.
+(* what get_chunk(arr, sl, dt) must answer given that witness: shape and dtype of the request are checked against it *)
+Definition hist_answer (dt : Z) (sl : slices) (w : option (Z * list Z * list A)) (dflt : res (list Z * list A))
+  : res (list Z * list A) :=
+  match w with
+  | Some (dt', sh, data) =>
+      if zs_eq_dec sh (slice_shape sl) then (if Z.eq_dec dt' dt then Ok (sh, data) else Err EBadChunk) else Err EBadChunk
+  | None => dflt
+  end.
+Definition marked (arr : str) (ops : list hop) : bool :=
+  existsb (fun op => match op with HMark a => if str_eq_dec a arr then true else false | HPut _ _ _ _ _ => false end) ops.
+
+End Hist.
+
+(* ------------------------------------------------------------------------------------------------ *)
 (* _prune_chunks (per axis) and the pruned read                                                        *)
 
 (* slice(start, stop).indices(n) for a unit step, followed by dask's normalize_index (stop := max start stop) *)
@@ -256,18 +299,21 @@ Definition norm_bound (n : Z) (o : option Z) (dflt : Z) : Z :=
 Definition norm_slice (n : Z) (ix : option Z * option Z) : Z * Z :=
   let s := norm_bound n (fst ix) 0 in (s, Z.max s (norm_bound n (snd ix) n)).
 
-(* first while loop: returns remaining chunks, start, stop, shape, offset *)
+(* The two drop conditions cs_prune_front_drops / cs_prune_back_drops are re-translated from the while conditions of the
+   source at every run (translator item item_prune_and_shims, which pins the rest of the body).
+   first while loop: returns remaining chunks, start, stop, shape, offset.  `start_chunk < len(chunks[axis]) - 1`:
+   the last remaining chunk is never dropped (katdal fix d72167c, finding C07-F2) *)
 Fixpoint drop_front (cs : list Z) (start stop shape off : Z) : list Z * (Z * Z * Z * Z) :=
   match cs with
-  | c :: t => if c <=? start then drop_front t (start - c) (stop - c) (shape - c) (off + c)
-              else (cs, (start, stop, shape, off))
-  | [] => ([], (start, stop, shape, off))
+  | c :: ((_ :: _) as t) => if cs_prune_front_drops c start then drop_front t (start - c) (stop - c) (shape - c) (off + c)
+                            else (cs, (start, stop, shape, off))
+  | _ => (cs, (start, stop, shape, off))
   end.
-(* second while loop, on the reversed list *)
+(* second while loop, on the reversed list; `stop_chunk > start_chunk + 1`: at least one chunk is retained *)
 Fixpoint drop_back (rcs : list Z) (stop shape : Z) : list Z :=
   match rcs with
-  | c :: t => if c <=? shape - stop then drop_back t stop (shape - c) else rcs
-  | [] => []
+  | c :: ((_ :: _) as t) => if cs_prune_back_drops c shape stop then drop_back t stop (shape - c) else rcs
+  | _ => rcs
   end.
 
 (* one axis: (chunks', (start', stop'), offset'); a full slice is skipped as in the source *)
